@@ -38,3 +38,17 @@ Definition c03_region (cf : cfg) (a b : list block) : sx :=
 (* OperationInfo(a) == OperationInfo(b) as used by CSE: 1 / 0 / -1 (ValueError) *)
 Definition c03_opinfo (cf : cfg) (a b : op) : sx :=
   match op_info_eq cf a b with Some r => sB r | None => I (-1)%Z end.
+(* consumers: schedule_space returns () iff module ~ clone-after-pass ; HashableModule.__eq__ both ways ;
+   the 4th component (hashes agree) is 1 whenever the op names in walk order agree -- reported by python only *)
+Fixpoint names_op (x : op) : list nat :=
+  match x with Op n _ _ _ _ _ g _ => n :: names_regions g end
+with names_regions (g : regions) : list nat :=
+  match g with GNil => [] | GCons r t => names_blocks r ++ names_regions t end
+with names_blocks (r : blocks) : list nat :=
+  match r with BNil => [] | BCons k t => names_block k ++ names_blocks t end
+with names_block (k : block) : list nat :=
+  match k with Blk _ _ body => names_ops body end
+with names_ops (l : ops) : list nat :=
+  match l with ONil => [] | OCons o t => names_op o ++ names_ops t end.
+Definition c03_consumers (cf : cfg) (a b : op) : sx :=
+  L [sB (se_op cf a b); sB (se_op cf a b); sB (se_op cf b a); sB (nats_eqb (names_op a) (names_op b))].
